@@ -28,7 +28,7 @@ Mark == TLCSet(1, IF TLCGet(1) < l' THEN l' ELSE TLCGet(1))
 Step(e) == l <= N /\ Ev.e = e /\ l' = l + 1 /\ Mark
 TReset == /\ l <= N /\ Ev.e \in {"SlInit", "WrInit"} /\ l' = l + 1 /\ Mark
           /\ set' = {} /\ pend' = [p \in {Ev.procs[i] : i \in 1..Len(Ev.procs)} |-> NoOp] /\ views' = <<>>
-TSkip == /\ l <= N /\ Ev.e \in {"S", "SlEnd", "Quiesce", "WrEnd", "M", "Closed", "Fault"} /\ l' = l + 1 /\ Mark /\ UNCHANGED <<set, pend, views>>
+TSkip == /\ l <= N /\ Ev.e \in {"S", "SlEnd", "Quiesce", "WrEnd", "M", "Closed", "Fault", "ItCall", "ItPos"} /\ l' = l + 1 /\ Mark /\ UNCHANGED <<set, pend, views>>
 TCall == /\ Step("Call") /\ pend[Ev.p].st = "idle"
          /\ pend' = [pend EXCEPT ![Ev.p] = [op |-> Ev.op, k |-> Ev.k, n |-> Ev.n, st |-> "called", res |-> FALSE]]
          /\ UNCHANGED <<set, views>>
